@@ -158,7 +158,7 @@ theorem quiescent_history_probe_admitted (cfg : Cfg) (hwf : cfg.wf = true) (even
   apply quiescent_probe_admitted cfg hwf events r post
   intro q hq
   have hc : cfg.isConc q = true := by
-    obtain ⟨q0, _, hc0, hq'⟩ := mem_concPath cfg q (List.contains_iff_mem.mpr hq)
+    obtain ⟨q0, _, hc0, hq'⟩ := mem_concPath cfg hwf q (List.contains_iff_mem.mpr hq)
     exact (wf_chain cfg hwf q0 hc0).2 q hq'
   have := quiescent_sets_empty cfg _ (c02_holds cfg hwf events) hended q hc
   rw [lastSnap_run cfg events _ _ rfl] at this
